@@ -137,15 +137,19 @@ type engine struct {
 }
 
 // rootOf creates the root template. cat.Program.Engine knows the option "components"; the
-// local option "less" (vuego.WithLessProcessor) is added here.
+// local options "less" (vuego.WithLessProcessor) and "proc" (vuego.WithProcessor(stamp{}), an
+// in-place attribute-editing node processor) are added here.
 func rootOf(opts cat.Program, fsys fs.FS) vuego.Template {
-	less := false
+	less, proc := false, false
 	for _, o := range opts.Opts {
-		if o == "less" {
+		switch o {
+		case "less":
 			less = true
+		case "proc":
+			proc = true
 		}
 	}
-	if !less {
+	if !less && !proc {
 		return opts.Engine(fsys)
 	}
 	mounted := fsys
@@ -158,7 +162,13 @@ func rootOf(opts cat.Program, fsys fs.FS) vuego.Template {
 			lo = append(lo, vuego.WithComponents())
 		}
 	}
-	return vuego.NewFS(mounted, append(lo, vuego.WithLessProcessor())...)
+	if less {
+		lo = append(lo, vuego.WithLessProcessor())
+	}
+	if proc {
+		lo = append(lo, vuego.WithProcessor(stamp{}))
+	}
+	return vuego.NewFS(mounted, lo...)
 }
 
 func newEngine(opts cat.Program, fsys fs.FS) *engine {
@@ -320,6 +330,9 @@ func reference(p cat.Program, entry string, v int) (result, error) {
 		if bytes.Contains(r.out, []byte(cn)) || strings.Contains(r.errTxt, cn) {
 			return r, fmt.Errorf("rendered alone on a fresh engine, the result contains %q, a value that only program %s was ever given: out %q err %q", cn, a[:strings.Index(a, "=")], clip(string(r.out)), clip(r.errTxt))
 		}
+	}
+	if err := absolute(p, v, r); err != nil {
+		return r, fmt.Errorf("rendered alone on a fresh engine: %w", err)
 	}
 	refTab[k] = r
 	return r, nil
@@ -630,6 +643,9 @@ func judge(c Case, p cat.Program, where string, got, ref result, refName string,
 	}
 	if !bytes.Equal(got.out, ref.out) {
 		return fmt.Errorf("%s: bytes differ from %s: %s", where, refName, firstDiff(got.out, ref.out))
+	}
+	if err := absolute(p, v, got); err != nil {
+		return fmt.Errorf("%s: %w", where, err)
 	}
 	if want := goData(p, v); !reflect.DeepEqual(d, want) {
 		return fmt.Errorf("%s: the caller's data was modified by the render: %s", where, dataDiff(d, want))
@@ -1293,9 +1309,9 @@ func TestProp(t *testing.T) {
 	// combinations are visited four per history: A, B1, A, B2, A, B3, A, B4, A - every B is
 	// rendered right after A and A right after every B, all on long-lived engines.
 	pairHistories := func(kind string, list []combo, shared bool, keep func(ai, chunk int) bool) {
-		// B side: in the quick tier RenderString and RenderByte are represented by RenderReader
-		// (template_render.go: each is a one-line delegation to the next); A ranges over every
-		// entry in both tiers, thorough keeps the full square.
+		// In the quick tier RenderString and RenderByte are represented by RenderReader on both
+		// sides (template_render.go: each is a one-line delegation to the next); thorough keeps
+		// the full square.
 		others := list
 		if !run.Thorough() {
 			others = nil
@@ -1306,6 +1322,9 @@ func TestProp(t *testing.T) {
 			}
 		}
 		for ai, a := range list {
+			if !run.Thorough() && (a.entry == "string" || a.entry == "byte") {
+				continue // quick: represented by reader on the A side as well
+			}
 			for lo := 0; lo < len(others); lo += 4 {
 				if !keep(ai, lo/4) {
 					continue
@@ -1333,6 +1352,8 @@ func TestProp(t *testing.T) {
 			fam = "num-twin"
 		case hasFeat(cb.p, "retype-twin"):
 			fam = "retype-twin"
+		case hasFeat(cb.p, "row-twin"):
+			fam = "row-twin"
 		}
 		if fam != "" {
 			if first, ok := famSeen[fam]; ok && first != cb.p.Name {
@@ -1355,7 +1376,7 @@ func TestProp(t *testing.T) {
 	pairHistories("pairs-shared", scs, true, func(ai, chunk int) bool { return run.Thorough() || (ai+chunk)%3 == 0 })
 	// near-twin programs on the shared engine, exhaustively in both tiers: every ordered pair of
 	// twins x every pair of entries as A, B, A (the first render on the engine is A's)
-	for _, family := range []string{"near-twin", "retype-twin"} {
+	for _, family := range []string{"near-twin", "retype-twin", "row-twin"} {
 		var twins []combo
 		for _, cb := range scs {
 			if hasFeat(cb.p, family) {
@@ -1375,7 +1396,7 @@ func TestProp(t *testing.T) {
 		}
 	}
 	if ok {
-		rec.Exhaustive(fmt.Sprintf("all ordered pairs (A, B) of %d applicable (program, entry) combinations (one member per twin family; quick: B over the entries other than string/byte, which delegate to reader) of %d programs as history A, B, A on long-lived engines; all ordered pairs of twin-family members x entry pairs on the shared engine; every (program, entry) with every value typing first on the engine followed by the others; every hazard program x entry x data variant probed 30+30 times; every (program, entry) through the data variants 0,1,0,2,1,0 on one engine", len(core), len(named)))
+		rec.Exhaustive(fmt.Sprintf("all ordered pairs (A, B) of %d applicable (program, entry) combinations (one member per twin family; quick: without the entries string/byte, which delegate to reader) of %d programs as history A, B, A on long-lived engines; all ordered pairs of twin-family members x entry pairs on the shared engine; every (program, entry) with every value typing first on the engine followed by the others; every hazard program x entry x data variant probed 30+30 times; every (program, entry) through the data variants 0,1,0,2,1,0 on one engine", len(core), len(named)))
 	}
 
 	run.Rapid(t, rec, "history", genHistory, classify, check)
